@@ -237,7 +237,9 @@ var (
 		v    string
 		set  bool
 		kind string // ok | bad | ambiguous
-	}{{"application/json", true, "ok"}, {"", false, "bad"}, {"application/json; charset=utf-8", true, "ambiguous"}, {"text/plain", true, "bad"}, {"Application/JSON", true, "ambiguous"}}
+	}{{"application/json", true, "ok"}, {"", false, "bad"}, {"application/json; charset=utf-8", true, "ambiguous"}, {"text/plain", true, "bad"}, {"Application/JSON", true, "ambiguous"},
+		// other media types that merely begin with the same letters
+		{"application/jsonl", true, "bad"}, {"application/json-seq", true, "bad"}}
 	headers = []struct {
 		v   string
 		set bool
@@ -257,7 +259,7 @@ func TestCheck(t *testing.T) {
 	defer os.RemoveAll(base)
 	states := mkStates(base)
 	sec := rep.Add(&report.Section{Name: "full-product", Engine: "enum", Exhaustive: true, Extra: map[string]int64{}, Outcomes: map[string]int64{},
-		Rule: "endpoint(7) × method(7) × content-type(5) × browser-header(5) × WhoIs answer(10) × body(8-14 per endpoint) × database state(3); non-trivial = requests that must be accepted (POST, application/json, header setec, identified caller, decodable body)"})
+		Rule: "endpoint(7) × method(7) × content-type(7) × browser-header(5) × WhoIs answer(10) × body(8-14 per endpoint) × database state(3); non-trivial = requests that must be accepted (POST, application/json, header setec, identified caller, decodable body)"})
 	type job struct {
 		si int
 		ep string
